@@ -37,8 +37,23 @@ def txindex_selftest():
     print("selftest txindex: ok")
 
 
+def manifest_selftest():
+    """MANIFEST.json and the committed evidence agree (claimed level = level of the evidence record, one record per check)."""
+    verif = os.path.dirname(os.path.dirname(os.path.abspath(__file__)))
+    m = json.load(open(os.path.join(verif, "MANIFEST.json")))
+    for c in m["checks"]:
+        pid = c.get("property_id") or c.get("id")
+        path = os.path.join(verif, "evidence", pid + ".json")
+        if os.path.exists(path):
+            lv = json.load(open(path)).get("level")
+            want = c.get("level_claimed", {}).get("category")
+            assert lv == want, "evidence/%s.json has level %s, MANIFEST claims %s" % (pid, lv, want)
+    print("selftest manifest: ok")
+
+
 if __name__ == "__main__":
     try:
+        manifest_selftest()
         txindex_selftest()
     except (AssertionError, ToolError) as e:
         print("SELFTEST FAILED:", e)
